@@ -258,6 +258,10 @@ def _walk(o, h, path, seen):
         up(np.ascontiguousarray(o.value).tobytes() + b';')
     elif isinstance(o, np.ndarray):
         up(f'nd:{o.dtype}:{o.shape}:'.encode())
+        if isinstance(o, np.ma.MaskedArray):
+            # a masked array is data + mask + fill value (+ whether the mask is hard)
+            up(f'ma:{o.fill_value!r}:{o.hardmask}:'.encode() + np.ascontiguousarray(np.ma.getmaskarray(o)).tobytes())
+            o = np.asarray(o.data)
         if o.dtype == object:
             for x in o.ravel():
                 _walk(x, h, path, seen)
